@@ -644,6 +644,16 @@ OBLIGATIONS.append(k2("once.wrapper", _k2h("react::react_commands", "once_reacto
                              "removes is decided by the C06 obligations, what the token names by token.every_member)"],
                       no_native_playback=True, witness=[["once", "twice"], ["once", "self_trigger"]]))
 
+OBLIGATIONS.append(k2("revoke.exact_pairs", _k2h("react::react_commands", "revoke_reactor_exact_pairs_two_entities"), ["C06", "C16"],
+                      ["revoke_reactor", "Query::get_mut"], ["src/react/react_commands.rs", "src/react/utils.rs"],
+                      "two live entities with reactor tables; token = [EntityInsertion(e1, Ka), EntityEvent(e2, Ea)] (constant-size Arc)",
+                      "revoke_reactor addresses exactly the (entity, reaction type) pairs the token names, each once, for the token's "
+                      "reactor: e1's table is asked to remove (Insertion Ka) only, e2's table (Event Ea) only - triggers of the same "
+                      "reactor that the token does not name are not touched (either order of the two removals is accepted)",
+                      stubs=["EntityReactors::remove -> record_remove (records table address, reaction type, reactor id; what a removal "
+                             "does to a table is decided by entreactors.remove_*)"],
+                      no_native_playback=True, witness=[["revoke_pairs"]]))
+
 OBLIGATIONS.append(k2("token.duplicate_member", _k2h("react::reaction_trigger", "token_keeps_duplicate_member"), ["C06", "C15", "C16"],
                       ["RevokeToken::new_from", "get_reactor_types", "ReactionTriggerBundle::collect_reactor_types"],
                       ["src/react/reaction_trigger.rs", "src/react/utils.rs"], "two-member bundle repeating one broadcast trigger",
@@ -911,7 +921,7 @@ _QUICK_ONLY_FOR = {
     "cmd.apply_reaction_broadcast": ["C05", "C18"],
     "cmd.pair_broadcast_event": ["C05"], "cmd.pair_system_event": ["C04"], "cmd.pair_despawn_reaction": ["C07"],
     "rc.register_broadcast_2_1": ["C01"], "rc.register_mutation_1_1_1": ["C15"], "rc.register_despawn_by_entity": ["C08"], "entry.broadcast": ["C14"], "syscall.named_nested": ["C17"],
-    "register.two_triggers": ["C15"], "register.empty_bundle": ["C15"], "token.every_member": ["C06", "C15", "C16"], "token.reactor_types_duplicates": ["C06", "C15"],
+    "register.two_triggers": ["C15"], "register.empty_bundle": ["C15"], "token.every_member": ["C06", "C15", "C16"], "revoke.exact_pairs": ["C06"], "token.reactor_types_duplicates": ["C06", "C15"],
 }
 
 
